@@ -66,6 +66,11 @@ def gen_cases(tier, seed):
                       'big': bool(i % 5 == 4),
                       'x_dtype': ['float64', 'int32', 'float32', 'int64',
                                   'float64'][i % 5]})
+        if i % 7 == 6:
+            # raw counts stored in a narrow integer type
+            cases[-1]['raw'] = True
+            cases[-1]['big'] = False
+            cases[-1]['x_dtype'] = ['uint16', 'uint8', 'int16'][(i // 7) % 3]
     return cases
 
 
@@ -104,11 +109,22 @@ def make_dataset(rng, raw, x_dtype, big=False):
             labels.append(leaves[int(rng.integers(len(leaves)))])
     order = rng.permutation(n_cells)
     labels = [labels[i] for i in order]
-    if raw:
+    narrow = x_dtype in ('uint16', 'int16', 'uint8', 'int8')
+    if raw and narrow:
+        # every entry fits the stored type, most cell totals do not
+        hi = int(np.iinfo(np.dtype(x_dtype)).max)
+        if n_genes < 3:
+            n_genes = 3
+            genes = gen.gene_names(rng, n_genes)
+        X = np.floor(rng.uniform(0, hi + 1, size=(n_cells, n_genes)))
+        X[rng.random(X.shape) < 0.3] = 0
+    elif raw:
         X = np.floor(rng.uniform(0, 400, size=(n_cells, n_genes)))
         X[rng.random(X.shape) < 0.4] = 0
         # boundary cells: total exactly 1e6 x m, one gene with count m
         for i in range(n_cells):
+            if narrow:
+                break
             if n_genes >= 2 and rng.random() < 0.25:
                 m = int(rng.integers(1, 4))
                 row = np.zeros(n_genes)
@@ -127,7 +143,8 @@ def make_dataset(rng, raw, x_dtype, big=False):
         X[rng.random(X.shape) < 0.4] = 0
         X[rng.random(X.shape) < 0.1] = 1.0       # log2(1+1) exactly
         X[rng.random(X.shape) < 0.03] = 1.0 - 5e-7
-    if x_dtype.startswith('int') and not raw:
+    if (x_dtype.startswith('int') or x_dtype.startswith('uint')) \
+            and not raw:
         x_dtype = 'float64'
     X = X.astype(x_dtype)
     cells = [f'cell{i}' for i in range(n_cells)]
